@@ -81,3 +81,123 @@ pub mod synth {
         meta
     }
 }
+
+pub mod fexpr {
+    //! Filter expressions in prefix notation, built with the real `FilterExt` combinators:
+    //! L<l> | T<hex> | E<hex> | F<pred><k>h<hint|-> | D<k>h<hint|->c<-|g> | N | S e | & e e | "|" e e | ! e | R e | B e
+    use std::cell::Cell;
+    use tracing_core::{collect::Interest, LevelFilter, Metadata};
+    use tracing_subscriber::filter::{dynamic_filter_fn, filter_fn, EnvFilter, FilterExt, Targets};
+    use tracing_subscriber::subscribe::Filter;
+    use tracing_subscriber::Registry;
+
+    thread_local! { pub static FLAG: Cell<bool> = const { Cell::new(false) }; }
+
+    pub type BoxF = Box<dyn Filter<Registry> + Send + Sync>;
+    pub type BoxS = Box<dyn tracing_subscriber::Subscribe<Registry> + Send + Sync>;
+
+    pub fn lf(r: usize) -> LevelFilter {
+        match r { 0 => LevelFilter::OFF, 1 => LevelFilter::ERROR, 2 => LevelFilter::WARN, 3 => LevelFilter::INFO, 4 => LevelFilter::DEBUG, _ => LevelFilter::TRACE }
+    }
+
+    pub fn rank_of(m: &Metadata<'_>) -> usize {
+        let l = *m.level();
+        if l == tracing_core::Level::ERROR { 1 } else if l == tracing_core::Level::WARN { 2 } else if l == tracing_core::Level::INFO { 3 } else if l == tracing_core::Level::DEBUG { 4 } else { 5 }
+    }
+
+    fn pred(pred: u8, k: usize, m: &Metadata<'_>) -> bool {
+        match pred {
+            0 => rank_of(m) <= k,
+            1 => m.target().contains("db") && rank_of(m) <= k,
+            _ => m.is_span() && rank_of(m) <= k,
+        }
+    }
+
+    pub fn build(toks: &[&str], pos: &mut usize) -> BoxF {
+        let t = toks[*pos];
+        *pos += 1;
+        let b = t.as_bytes();
+        match b[0] {
+            b'L' => Box::new(lf(t[1..].parse().unwrap())),
+            b'T' => Box::new(crate::unhex_str(&t[1..]).parse::<Targets>().expect("targets")),
+            b'E' => Box::new(EnvFilter::builder().parse(crate::unhex_str(&t[1..])).expect("env")),
+            b'F' => {
+                let p = b[1] - b'0';
+                let k: usize = (b[2] - b'0') as usize;
+                let hint = &t[4..];
+                let f = filter_fn(move |m| pred(p, k, m));
+                if hint == "-" { Box::new(f) } else { Box::new(f.with_max_level_hint(lf(hint.parse().unwrap()))) }
+            }
+            b'D' => {
+                let k: usize = (b[1] - b'0') as usize;
+                let rest = &t[3..];
+                let (hint, cs) = rest.split_once('c').unwrap();
+                let f = dynamic_filter_fn(move |m: &Metadata<'_>, _cx: &tracing_subscriber::subscribe::Context<'_, Registry>| FLAG.with(|f| f.get()) && rank_of(m) <= k);
+                match (hint, cs) {
+                    ("-", "-") => Box::new(f),
+                    (h, "-") => Box::new(f.with_max_level_hint(lf(h.parse().unwrap()))),
+                    ("-", _) => Box::new(f.with_callsite_filter(move |m: &'static Metadata<'static>| if rank_of(m) <= k { Interest::sometimes() } else { Interest::never() })),
+                    (h, _) => Box::new(f.with_max_level_hint(lf(h.parse().unwrap())).with_callsite_filter(move |m: &'static Metadata<'static>| if rank_of(m) <= k { Interest::sometimes() } else { Interest::never() })),
+                }
+            }
+            b'N' => Box::new(None::<BoxF>),
+            b'S' => Box::new(Some(build(toks, pos))),
+            b'&' => { let a = build(toks, pos); let c = build(toks, pos); Box::new(a.and(c)) }
+            b'|' => { let a = build(toks, pos); let c = build(toks, pos); Box::new(a.or(c)) }
+            b'!' => Box::new(build(toks, pos).not()),
+            b'R' => { let (f, _h) = tracing_subscriber::reload::Subscriber::new(build(toks, pos)); Box::new(f) }
+            b'B' => Box::new(build(toks, pos)),
+            _ => panic!("bad expr token {}", t),
+        }
+    }
+
+    /// a LEAF expression used as a global filter LAYER (these types implement `Subscribe` too)
+    pub fn build_global(t: &str) -> BoxS {
+        let b = t.as_bytes();
+        match b[0] {
+            b'L' => Box::new(lf(t[1..].parse().unwrap())),
+            b'T' => Box::new(crate::unhex_str(&t[1..]).parse::<Targets>().expect("targets")),
+            b'E' => Box::new(EnvFilter::builder().parse(crate::unhex_str(&t[1..])).expect("env")),
+            b'F' => {
+                let p = b[1] - b'0';
+                let k: usize = (b[2] - b'0') as usize;
+                let hint = &t[4..];
+                let f = filter_fn(move |m| pred(p, k, m));
+                if hint == "-" { Box::new(f) } else { Box::new(f.with_max_level_hint(lf(hint.parse().unwrap()))) }
+            }
+            b'D' => {
+                let k: usize = (b[1] - b'0') as usize;
+                let rest = &t[3..];
+                let (hint, _cs) = rest.split_once('c').unwrap();
+                let f = dynamic_filter_fn(move |m: &Metadata<'_>, _cx: &tracing_subscriber::subscribe::Context<'_, Registry>| FLAG.with(|f| f.get()) && rank_of(m) <= k);
+                if hint == "-" { Box::new(f) } else { Box::new(f.with_max_level_hint(lf(hint.parse().unwrap()))) }
+            }
+            b'K' => {
+                // a gate: dynamic (and `sometimes`) for one target, `always` for everything else
+                let ti: usize = (b[1] - b'0') as usize;
+                let f = dynamic_filter_fn(move |m: &Metadata<'_>, _cx: &tracing_subscriber::subscribe::Context<'_, Registry>| m.target() != TARGETS[ti] || FLAG.with(|f| f.get()))
+                    .with_callsite_filter(move |m: &'static Metadata<'static>| if m.target() == TARGETS[ti] { Interest::sometimes() } else { Interest::always() });
+                Box::new(f)
+            }
+            _ => panic!("not a global-layer leaf {}", t),
+        }
+    }
+
+    pub const TARGETS: [&str; 7] = ["app", "application", "app::db", "app::db::pool", "other", "", "ap"];
+    pub const FIELDSETS: [&[&str]; 4] = [&[], &["bar"], &["bar", "baz"], &["msg"]];
+
+    pub fn universe() -> Vec<&'static Metadata<'static>> {
+        let mut v = Vec::new();
+        for t in TARGETS.iter() {
+            for r in 1..=5 {
+                for ev in [false, true] {
+                    for fs in FIELDSETS.iter() {
+                        let f: Vec<String> = fs.iter().map(|s| s.to_string()).collect();
+                        v.push(crate::synth::mk_meta("m", t, r, ev, &f));
+                    }
+                }
+            }
+        }
+        v
+    }
+}
